@@ -80,6 +80,13 @@ func (*h) Gen(r *hlib.Rand, tier string, scale int, emit func(string)) {
 		"batch u5:506,u8:478", "batch u7:849", "sopen", "check", "batch u2:7", "check", "wclose", "check", "close 0", "end"} {
 		emit(l)
 	}
+	// directed second case: every kind of step at least once whatever the seed (reader from the writer, reader from
+	// disk, merge, close, reopen on the same directory = loadSnapshot, queries after each of them)
+	for _, l := range []string{"case d1 dir=fs unsafe=0 tier=1 task=2 growth=20 minmem=2", "wopen", "batch u0:1,u1:2", "batch u2:3,d0",
+		"open", "batch u3:4", "openfs", "batch u1:9", "check", "settle", "wclose", "check", "reopen", "check", "batch u4:5,d2", "settle",
+		"check", "wclose", "check", "close 0", "settle", "close 1", "end"} {
+		emit(l)
+	}
 	for c := 0; c < cases; c++ {
 		dir := "fs"
 		if c%4 == 3 {
